@@ -184,6 +184,9 @@ def _gen_case_(rng, tier, g, big):
     return {'prop': PROP, 'op': op, 'tables': tables, 'perms': perms,
             'eqnum': eqnum, 'inner_ms': inner_ms,
             'perm_short': perms is not None and rng.random() < 0.5,
+            'dupname': rng.randrange(2) if op == 'mergesort' and
+            perms is None and hdr_arg is None and key is not None and
+            rng.random() < 0.1 else None,
             'sweep': sweep, 'inner': inner,
             'key': key, 'reverse': rng.random() < 0.35,
             'buffersize': rng.choice([255, 256, 257, 258, 300, n0 - 1, n0])
@@ -202,6 +205,18 @@ def _apply_perm(t, p):
 
 def _tables(case):
     tables = [dec_table(t) for t in case['tables']]
+    if case.get('dupname') is not None and len(tables) > 1:
+        # an input other than the first carries a field name twice (its last
+        # field is called like its first): a name means the first column of
+        # that name.  (Not the first input: cat() takes its header as it is,
+        # repeated names included, which is another matter.)
+        t = tables[1 + case['dupname'] % (len(tables) - 1)]
+        k = case['key']
+        knames = [] if k is None else (k if isinstance(k, list) else [k])
+        if t and len(t[0]) >= 2 and t[0][-1] not in knames and \
+                not any(isinstance(x, int) for x in knames):
+            t[0] = list(t[0])
+            t[0][-1] = t[0][0]
     if case.get('perms'):
         out = []
         for t, p in zip(tables, case['perms']):
